@@ -25,7 +25,7 @@ RULE = ("random histories (<=12 ops quick, <=40 thorough) over the full public a
         "non-trivial = history with >= 3 mutators and sequence with >= 1 note")
 ASSUMPTIONS = ["model: Seq machine (Model/Wrapper.lean) instantiated with the modelled functions, compared step by step",
                "excluded as not legal (DESIGN C04): invalidate_* by hand, out-of-order time edits through an iterator"]
-MUTATORS = {"normalise", "pad", "setChannel", "cutoff", "quantise", "qnl", "quantiseAndNormalise", "transpose", "scale",
+MUTATORS = {"editAbsPeek", "editRelPeek", "editAbsFirst", "editRelFirst", "normalise", "pad", "setChannel", "cutoff", "quantise", "qnl", "quantiseAndNormalise", "transpose", "scale",
             "editAbs", "editRel", "overwriteAbs", "overwriteRel", "merge", "concat", "addAbs", "addRel"}
 
 
